@@ -10,7 +10,7 @@ F_Q = 'atsim/potentials/tools/potable/_query_actions.py'
 import contracts.overrides as OVc
 import contracts.rawparser as RPc
 import contracts.potable_cli as CLIc
-FUNCTIONS = [(F_CP, 'ConfigParser._init_config_parser'), (F_CP, '_RawConfigParser.has_option'), (F_POT, '_create_override_tuple'), (F_POT, '_make_config_parser')]
+FUNCTIONS = [(F_CP, 'ConfigParser._init_config_parser'), (F_CP, '_RawConfigParser.has_option'), (F_POT, '_create_override_tuple'), (F_POT, '_make_config_parser'), (F_CP, 'ConfigParser.__init__')]
 
 def lemmas():
     out = []
@@ -73,6 +73,8 @@ MUTANTS = [
     (F_POT, '_make_config_parser', "additional=additional_list)", "additional=[])", 'post'),
     (F_POT, '_make_config_parser', "overrides=overrides_list,", "overrides=overrides_list[:-1],", 'post'),
     (F_POT, '_make_config_parser', "if not remove is None:", "if remove is None:", 'post'),
+    (F_CP, 'ConfigParser.__init__', "self._init_config_parser(fp, overrides, additional)", "self._init_config_parser(fp, additional, overrides)", 'post'),
+    (F_CP, 'ConfigParser.__init__', "self._init_config_parser(fp, overrides, additional)", "self._init_config_parser(fp, overrides, [])", 'post'),
 ]
 MODULE_MUTANTS = [
     (F_CP, "    option = option.strip().replace(' ', '').replace('\\t', '')\n", "    option = option.strip()\n", 'one-normal-form'),
